@@ -314,6 +314,16 @@ static void print_obs_one(int f, int doit)
 static void print_files(int which)
 {
 	int f;
+	/* is the inode inline data right now (independent of observation) */
+	printf(",\"inl\":[");
+	for (f = 0; f < NF; f++) {
+		struct ext2_inode in;
+		memset(&in, 0, sizeof(in));
+		if (ino[f])
+			ext2fs_read_inode(fs, ino[f], &in);
+		printf("%s%d", f ? "," : "", (in.i_flags & EXT4_INLINE_DATA_FL) ? 1 : 0);
+	}
+	printf("]");
 	printf(",\"fs\":[");
 	for (f = 0; f < NF; f++) {
 		if (f)
